@@ -3,11 +3,14 @@ from pyvc.api import REG, record, external, contract, spec, axiom
 
 import fnmatch as _fnmatch
 import libcst as _cst
-REG.spec_globals = {"fnmatch": _fnmatch, "cst": _cst}
+import os as _os
+REG.spec_globals = {"fnmatch": _fnmatch, "cst": _cst, "os": _os}
 
 # ---- ghost state ---------------------------------------------------------------------------------
 REG.ghosts = {
     "fs": "map[Opaque, bytes]",          # content of every path (total map)
+    "report_written": "bool",            # a CodeTF report file has been written completely during this call
+    "last_run_status": "int",            # value returned by the last completed codemodder.run()
 }
 
 # ---- libcst positions (frozen dataclasses -> value records) ---------------------------------------
@@ -69,7 +72,8 @@ record("codemodder.context.CodemodExecutionContext", kind="ref",
                "_changesets_by_codemod": "dict[str, list[ChangeSet]]", "_failures_by_codemod": "dict[str, list[Path]]",
                "_unfixed_findings_by_codemod": "dict[str, list[UnfixedFinding]]", "dependencies": "dict[str, set[Opaque]]",
                "_dependency_update_by_codemod": "dict[str, Opaque]", "registry": "Opaque", "repo_manager": "Opaque",
-               "providers": "Opaque", "timer": "Opaque", "semgrep_prefilter_results": "ResultSet | None"})
+               "providers": "Opaque", "timer": "Opaque", "semgrep_prefilter_results": "ResultSet | None",
+               "openai_llm_client": "Opaque", "azure_llama_llm_client": "Opaque"})
 record("codemodder.codemods.base_transformer.BaseTransformerPipeline", kind="ref", fields={"transformers": "list[Opaque]"})
 record("codemodder.codemods.base_codemod.BaseCodemod", kind="ref",
        fields={"_metadata": "Opaque", "detector": "Opaque", "transformer": "BaseTransformerPipeline",
@@ -79,3 +83,8 @@ record("codemodder.codemods.base_codemod.RemediationCodemod", kind="ref", fields
 
 external("fnmatch.fnmatch", params={"name": "str", "pat": "str"}, returns="bool", pure=True,
          note="fnmatch.fnmatch: pure total predicate fnm(name, pattern); nothing assumed beyond purity")
+
+record("codemodder.codetf.CodeTF", kind="ref", fields={"run": "Opaque", "results": "Opaque"})
+record("codemodder.cli.ArgumentParser", kind="ref", fields={})
+REG.exceptions.update({"DuplicateToolError": "codemodder.sarifs.DuplicateToolError",
+                       "MisconfiguredAIClient": "codemodder.llm.MisconfiguredAIClient"})
